@@ -295,6 +295,23 @@ impl SendChannelConfig {
     }
 }
 
+/// Accessor for the verification harness (feature `ipa-verif`, test builds only): the channel
+/// configuration computed by [`SendChannelConfig::new_with`] as
+/// `(total_capacity, record_size, read_size)`.
+#[cfg(all(test, feature = "ipa-verif"))]
+pub(super) fn ipa_verif_send_channel_config(
+    gateway_config: GatewayConfig,
+    total_records: TotalRecords,
+    record_size: usize,
+) -> (usize, usize, usize) {
+    let c = SendChannelConfig::new_with(gateway_config, total_records, record_size);
+    (
+        c.total_capacity.get(),
+        c.record_size.get(),
+        c.read_size.get(),
+    )
+}
+
 #[cfg(all(test, unit_test))]
 mod test {
     use std::num::NonZeroUsize;
